@@ -259,3 +259,173 @@ func containsU(s []uint64, v uint64) bool {
 	}
 	return false
 }
+
+// ---- R121: the enum bitset is only touched through (word = code>>6, bit = code&63) of one code ----
+
+func init() {
+	register(&Rule{ID: "R121", Name: "BITSET-ACCESS", Floor: 2,
+		Text: "in internal/ecolumn every access to a word of the value bitset (the [4]uint64 set of enum codes that `in`, like and ilike build and the row loop tests) selects the word by code>>k and the bit by 1<<(code&(2^k-1)) of the SAME code value: a store writes old|bit, a load is only ever and-ed with that bit. A word selected by a constant or any other index may be printed but not used in arithmetic, and no word is stored from anything but old|bit (a literal of all ones sets bit 255, the null code; a single-word fast path folds code 255 onto bit 63 of word 0) - so membership of the null code and of codes >= 64 is what set() recorded",
+		Run:  runR121})
+}
+
+func runR121(c *Ctx) {
+	p := c.P
+	ep := "internal/ecolumn"
+	bs := p.Named(ep, "bitset")
+	if bs == nil {
+		c.undecided(ep+".bitset", "-", "bitset type not found")
+		return
+	}
+	arr, _ := bs.Underlying().(*types.Array)
+	if arr == nil {
+		c.undecided(ep+".bitset", "-", "bitset is not an array")
+		return
+	}
+	isBitset := func(t types.Type) bool {
+		t = deref(t)
+		n, ok := t.(*types.Named)
+		return ok && n.Obj() == bs.Obj()
+	}
+	// code >> k  -> (code, k)
+	shiftOf := func(v ssa.Value) (ssa.Value, int64, bool) {
+		b, ok := stripConv(v).(*ssa.BinOp)
+		if !ok || b.Op != token.SHR {
+			return nil, 0, false
+		}
+		k, ok := constInt(b.Y)
+		if !ok {
+			return nil, 0, false
+		}
+		return stripConv(b.X), k, true
+	}
+	// 1 << (code & mask) -> code
+	bitOf := func(v ssa.Value, k int64) (ssa.Value, bool) {
+		b, ok := stripConv(v).(*ssa.BinOp)
+		if !ok || b.Op != token.SHL {
+			return nil, false
+		}
+		if one, ok := constInt(b.X); !ok || one != 1 {
+			return nil, false
+		}
+		a, ok := stripConv(b.Y).(*ssa.BinOp)
+		if !ok || a.Op != token.AND {
+			return nil, false
+		}
+		if m, ok := constInt(a.Y); ok && m == (int64(1)<<uint(k))-1 {
+			return stripConv(a.X), true
+		}
+		if m, ok := constInt(a.X); ok && m == (int64(1)<<uint(k))-1 {
+			return stripConv(a.Y), true
+		}
+		return nil, false
+	}
+	n := 0
+	for _, fn := range p.FuncsIn(ep) {
+		eachInstr(fn, func(in ssa.Instruction) {
+			var x, idx ssa.Value
+			var refs *[]ssa.Instruction
+			var isAddr bool
+			switch t := in.(type) {
+			case *ssa.IndexAddr:
+				x, idx, refs, isAddr = t.X, t.Index, t.Referrers(), true
+			case *ssa.Index:
+				x, idx, refs = t.X, t.Index, t.Referrers()
+			default:
+				return
+			}
+			if !isBitset(x.Type()) {
+				return
+			}
+			n++
+			key := fname(fn) + "|word access"
+			pos := p.instrPos(in)
+			code, k, shifted := shiftOf(idx)
+			if shifted && int64(arr.Len())<<uint(k) < 256 {
+				c.bad(key, pos, fmt.Sprintf("word index code>>%d with %d words does not cover the 256 codes", k, arr.Len()))
+				return
+			}
+			// collect the loaded words and the stores
+			var loads []ssa.Value
+			var stores []*ssa.Store
+			if isAddr {
+				for _, r := range *refs {
+					switch u := r.(type) {
+					case *ssa.UnOp:
+						if u.Op == token.MUL {
+							loads = append(loads, u)
+						}
+					case *ssa.Store:
+						if u.Addr == in.(ssa.Value) {
+							stores = append(stores, u)
+						}
+					}
+				}
+			} else {
+				loads = append(loads, in.(ssa.Value))
+			}
+			if !shifted {
+				if len(stores) > 0 {
+					c.bad(key, pos, "a word of the enum bitset is written at an index that is not code>>k: bits are set without a code (a literal or fill of all ones includes bit 255, the null code)")
+					return
+				}
+				for _, l := range loads {
+					for _, r := range *l.Referrers() {
+						switch r.(type) {
+						case *ssa.MakeInterface, *ssa.DebugRef:
+						case ssa.CallInstruction:
+						default:
+							c.bad(key, pos, "a word of the enum bitset selected by an index that is not code>>k is used in a computation: membership is then tested in the wrong word for codes outside it (the null code 255 folds onto bit 63 of word 0)")
+							return
+						}
+					}
+				}
+				c.okTrivial(key, pos, "word read for printing only")
+				return
+			}
+			for _, st := range stores {
+				or, ok := stripConv(st.Val).(*ssa.BinOp)
+				good := false
+				if ok && or.Op == token.OR {
+					for _, side := range [][2]ssa.Value{{or.X, or.Y}, {or.Y, or.X}} {
+						ld, isLd := side[0].(*ssa.UnOp)
+						bc, isBit := bitOf(side[1], k)
+						if isLd && ld.Op == token.MUL && isBit && bc == code {
+							if la, ok := ld.X.(*ssa.IndexAddr); ok && sameElem(la, in.(*ssa.IndexAddr)) {
+								good = true
+							}
+						}
+					}
+				}
+				if !good {
+					c.bad(key, pos, "the word at code>>k is stored from something other than old | 1<<(code&mask) of the same code")
+					return
+				}
+			}
+			for _, l := range loads {
+				for _, r := range *l.Referrers() {
+					b, ok := r.(*ssa.BinOp)
+					if !ok {
+						if _, isDbg := r.(*ssa.DebugRef); isDbg {
+							continue
+						}
+						c.bad(key, pos, "the word at code>>k is used other than by and/or with the code's bit")
+						return
+					}
+					other := b.Y
+					if b.Y == l {
+						other = b.X
+					}
+					bc, isBit := bitOf(other, k)
+					if !(b.Op == token.AND || b.Op == token.OR) || !isBit || bc != code {
+						c.bad(key, pos, "the word selected by one code is combined with the bit of another value (or with no single bit at all)")
+						return
+					}
+				}
+			}
+			c.ok(key, pos, fmt.Sprintf("word = code>>%d, bit = 1<<(code&%#x) of the same code", k, (int64(1)<<uint(k))-1))
+		})
+	}
+	if n == 0 {
+		c.undecided(ep+".bitset|accesses", "-", "no access to a bitset word found")
+	}
+}
